@@ -5,23 +5,34 @@ from vlib import core
 
 META = {
     "level": "model_checking",
-    "level_text": "WmoLayout.tla specifies the WMO root/group layout (record sizes, MOHD count fields, string tables, emission plan, "
-                  "MOGP container with back-patched size) as a writer machine followed by an independent walker; TLC checks exhaustively, for every "
-                  "combination of empty/populated lists x versions Classic..MoP, cursor bookkeeping, that the walker is never lost, tiling, "
-                  "MOHD counts = list lengths = record counts, string offsets resolve (stage A, plus the generic framing model MC_ChunkFraming). "
-                  "TLC enumerates the shape space (each list empty/one/many, string classes, extreme floats, every conversion pair); the real "
-                  "WmoWriter / WmoParser / parse_wmo / WmoConverter run on each shape and TLC validates the recorded events: per-section content "
-                  "tokens equal after parse, second write byte-identical, counts read out of the produced bytes by an independent chunk walker, "
-                  "string-table references resolved in TLA+, Representable sections kept by conversion.",
-    "level_note": "Payload bytes (floats, colours) are compared as opaque tokens (digest of the Debug rendering per section). Stage A is about "
-                  "the model of the format writer; only stages C+D speak about the code. Versions Classic..MoP (the property's quantifier); "
-                  "convex volume planes (MCVP) are not in the property's list and are not generated. Group files: the legacy group parser is a stub, "
-                  "so group content can only be observed through parse_wmo (different object model; projections of geometry lists).",
+    "level_text": "Decided by TLC. Stage A (exhaustive on the model): WmoLayout.tla is the format writer of WMO root and group files (record "
+                  "sizes and MOHD fields from docs/.../wmo.md, emission plan, string tables, lists of lists, MOGP container with back-patched "
+                  "size) followed by an independent walker; for every combination of empty/populated lists x Classic..MoP, every pattern of "
+                  "empty inner lists, roots and groups, TLC checks cursor bookkeeping after every chunk, that the walker is never lost, tiling "
+                  "of file and MOGP payload, MOHD counts = list lengths = record counts, string-table offsets resolve, visible-block regions "
+                  "disjoint and terminated, MOPT never without MOPV, well-formedness of the catalogued BSP trees and portal graphs; six code "
+                  "deviations observed earlier are named switches that TLC refutes; MC_ChunkFraming checks the generic framing rules. Stage B: "
+                  "TLC enumerates the shape cases (deterministic slices + LCG draws written in TLA+). Stage D (on events recorded from the real "
+                  "WmoWriter / WmoParser / parse_wmo / WmoConverter): equality of per-section content tokens after parse through both parsers, "
+                  "second-write identity as a whole and chunk by chunk, MOHD counts and chunk record counts read from the produced bytes, "
+                  "resolution of MOMT/MOGI string offsets against the MOTX/MOGN tables, MOGP tiling and group sub-chunk record counts, BSP "
+                  "records = tree written and well-formed, MOPR records = references written and a valid portal graph, conversion keeps the "
+                  "sections owed by ConvRootOwed/ConvGroupOwed and the converted object survives write->parse in the target version.",
+    "level_note": "Only observed, compared as opaque tokens (64-bit SHA-1 prefix of the Debug rendering, or of raw bytes): all payload values "
+                  "(floats, colours, indices, names). The independent walker in the driver knows only the framing rule and the record sizes / "
+                  "field offsets that TLC emitted with the cases. Stage A speaks about the model; only stages C+D speak about the code. The "
+                  "shape space is sampled, not exhausted (exhaustive=false): quick 858 cases, thorough ~14 000. Versions Classic..MoP (all "
+                  "MVER 17); convex volume planes (MCVP) are outside the property's list and not generated. The legacy group parser is a stub "
+                  "(known finding), so group content is judged through parse_wmo only (projections both object models can express); liquid "
+                  "payload and MOBA flag bytes of groups are not compared across the two object models.",
     "technique": "TLA+ layout specification model-checked by TLC; TLC-generated shapes replayed on the real writer/parsers/converter; trace validation by TLC",
     "design_ref": "DESIGN.md section 5, C13-C18 recipe and the C15 paragraph",
     "crates": ["c15"],
 }
 
+# shape fields that are list cardinalities (a case is non-trivial when at least one of them is > 0)
+LIST_DIMS = ("ntex", "nmat", "ngrp", "nport", "npref", "nvbl", "nlight", "ndd", "nds",
+             "nvert", "nidx", "nnorm", "ntc", "ncol", "nbatch", "nbsp", "ndref", "liq")
 DIMS = ("ntex", "nmat", "ngrp", "nport", "npref", "nvbl", "nlight", "ndd", "nds", "sky", "names", "xf")
 
 
@@ -71,7 +82,7 @@ def run(ctx, cases_override=None):
             if r["ev"] == "Reset":
                 by_kind[r["kind"]] = by_kind.get(r["kind"], 0) + 1
                 sh = r.get("shape", {})
-                if any(isinstance(v, int) and v > 0 for k, v in sh.items() if k.startswith("n")):
+                if any(isinstance(sh.get(k), int) and sh.get(k) > 0 for k in LIST_DIMS):
                     classes.add(json.dumps({k: v for k, v in sh.items() if k != "id"}, sort_keys=True))
             if kinds[r["ev"]] <= 1:
                 s = dict(r)
@@ -87,9 +98,12 @@ def run(ctx, cases_override=None):
         "cases_generated_by_tlc": ncases,
         "evaluations": res["events"] - res["traces"],
         "distinct_nontrivial": len(classes),
-        "rule": "one evaluation = one recorded event judged by TLC (Write/Chunks/Count/StrRef/Parse/Sec/Rewrite/Convert/End); "
-                "non-trivial = distinct shape records (kind, version, conversion target, list cardinalities, string class, extreme floats) "
-                "with at least one non-empty list",
+        "rule": "one evaluation = one recorded event judged by TLC in trace validation (Write/Chunks/Count/StrRef/Bsp/PortalRefs/Parse/"
+                "Sec/Rewrite/RwChunk/Convert/End; Reset events are not counted); distinct_nontrivial = number of distinct shape records "
+                "(kind, version, conversion target, list cardinalities, inner-list patterns, string class, extreme floats, BSP tree / portal "
+                "graph) among the replayed cases in which at least one list cardinality (ntex..nds for roots, nvert..ndref/liq for groups) "
+                "is > 0",
+        # stage B enumerates deterministic slices completely, but the shape space as a whole is sampled (seeded draws)
         "exhaustive": False,
     }
     assumptions = [
